@@ -162,6 +162,28 @@ def gen_history(rng, cfg=None):
                 fp = os.path.normpath(os.path.join(os.path.dirname(m['p']), e['path']))
                 tree = [dict({'p': t['p'], 'k': 'file', 'c': ''}, **({'mt': t['mt']} if 'mt' in t else {}))
                         if t.get('p') == fp and t.get('k', 'file') == 'file' else t for t in tree]
+    # targeted prior state: a directory that was covered first and declared IGNOREd later - the IGNORE line stands
+    # (usually in front of) the entries for files below it, and those files have changed or gone since
+    if prior != 'absent' and manifests and rng.random() < cfg.get('p_ignore_over_entries', 0.08):
+        ms_ = list(manifests)
+        rng.shuffle(ms_)
+        for m in ms_:
+            md_ = os.path.dirname(m['p'])
+            below = [e for e in m['entries'] if e.get('tag') in ('DATA', 'EBUILD', 'MISC', 'AUX') and '/' in e.get('path', '')
+                     and 'raw' not in e]
+            tops_ = sorted(set(e['path'].split('/')[0] for e in below))
+            tops_ = [d_ for d_ in tops_ if not d_.startswith('.') and
+                     not any(e.get('tag') in ('MANIFEST', 'IGNORE') and (e.get('path', '') + '/').startswith(d_ + '/') for e in m['entries'])]
+            if not tops_:
+                continue
+            d_ = rng.choice(tops_)
+            ign = {'tag': 'IGNORE', 'path': d_}
+            m['entries'] = ([ign] + m['entries']) if rng.random() < 0.7 else (m['entries'] + [ign])
+            for e in rng.sample([e for e in below if e['path'].startswith(d_ + '/')], 1):
+                full = os.path.normpath(os.path.join(md_, e['path']))
+                first_edits = first_edits + [rng.choice([{'m': 'rewrite', 'p': full, 'c': 'changed since ' + GT.rand_content(rng)},
+                                                         {'m': 'delete', 'p': full}])]
+            break
     # targeted prior state: one file listed in a sub-Manifest AND in a Manifest above it, the file
     # edited in place (same size), and only one of the two Manifests refreshed afterwards
     special_hashes = None
